@@ -4,7 +4,13 @@
 -/
 import SnowModel.Ops.OpCond
 import SnowModel.Ops.Simpson
+import SnowModel.Ops.Topology
+import SnowModel.Ops.Seeds
+import SnowModel.Ops.SnowingObj
+import SnowModel.Ops.Frames
+import SnowModel.Ops.FlakeStats
 import SnowModel.Ops.Flake
+import SnowModel.Ops.Gen
 import SnowModel.Ops.Snowing
 import SnowModel.Ops.Snowing2D
 
@@ -13,7 +19,13 @@ open Lean Snow
 def allOps : List (String × Op) :=
   Snow.Ops.opCondOps
   ++ Snow.Ops.simpsonOps
+  ++ Snow.Ops.topologyOps
+  ++ Snow.Ops.seedsOps
+  ++ Snow.Ops.snowingObjOps
+  ++ Snow.Ops.framesOps
+  ++ Snow.Ops.flakeStatsOps
   ++ Snow.Ops.flakeOps
+  ++ Snow.Ops.genOps
   ++ Snow.Ops.snowingOps
   ++ Snow.Ops.snowing2DOps
 
